@@ -91,6 +91,20 @@ PROPS["C08"] = {
     "technique": "deterministic simulation: simulated transport with stream/unary faults, node death and log loss; prefix/bytes agreement, ack <= follower high-water mark monitor, bounded liveness in simulated time",
 }
 
+PROPS["C18"] = {
+    "harness": "master", "level": "exploration", "per_proc": 150,
+    "quick": {"runs": 5000, "budget_s": 300},
+    "thorough": {"runs": 300000, "budget_s": 1500, "shrink_runs": 400},
+    "rule": "Each run: 1-7 storage nodes, some registered before the master starts; the real master StateManager with its real discovery state machines watches a simulated state repository (ordered watch stream per prefix, each event delayed 0..300 simulated ms by the tape). 5-40 operations: node up / down / flap, create database (1-12 shards, replica factor 1-3), grow shards, drop database, watch re-synchronisation (current state delivered again = duplicate events), bursts of 2-4 operations issued without waiting. After every operation the run waits (simulated time) until all watch events are drained and checks the persisted assignment and GetStorageState().",
+    "fault_kinds": ["delayed-watch-event", "watch-resync-duplicates"],
+    "real": ["coordinator/master (state manager, shard assignment, leader elector, storage cluster, state machine factory)", "coordinator/discovery (state machines, discovery)", "models (storage state, shard assignment)"],
+    "stub": ["pkg/state Repository: in-memory key/value store with ordered watch streams (etcd is not run)"],
+    "assumptions": COMMON_ASSUME + ["etcd guarantees modelled: per-watch ordered, gap-free delivery; duplicates only through re-listing", "math/rand is seeded per run (GODEBUG randseednop=0)"],
+    "design_ref": "5/C18",
+    "level_text": "Seeded exploration of node churn / database change histories with delayed and duplicated discovery events on the real master; the invariants of the statement are evaluated after every operation.",
+    "technique": "deterministic simulation: simulated state repository with delayed/duplicated watch events; invariant checks after every event burst",
+}
+
 NOT_APPLICABLE = {
     "C13": "pure arithmetic on (timestamp, interval): no schedule, clock, fault or crash point in the quantifier for a simulator to own; its code runs inside the C04/C07/C11 harnesses",
     "C14": "encode/decode are pure functions; pooled-object reuse is owned by the simulator only as a nondeterminism source of other harnesses, not as a fault of this property",
